@@ -75,11 +75,13 @@ def main(rep: Report, replay: dict | None, which=("A", "C", "B"), pair=False) ->
     depth = 5 if rep.tier == "quick" else 7
     for name in which:
         d = depth if name != "C" else min(depth, 6)
-        if which == ("B",) and rep.tier == "quick":
+        if pair and name == "B" and rep.tier == "quick":
             d = 6  # C09: one level deeper, so that "cache under X, change X, revisit" fits
+        if name == "D":  # C09: small configuration (2 frames, unhashable render-argument values)
+            d = 5 if rep.tier == "quick" else 8
         g = iter_replay.model_check(rep, name, d)
         if g is not None:
-            iter_replay.replay(rep, name, g, pair=pair and name == "B")
+            iter_replay.replay(rep, name, g, pair=pair and name in ("B", "D"))
     if which == ("A", "C", "B"):
         straight(rep)
     iter_traces.run(rep, n_traces=1500 if rep.tier == "quick" else (8000 if pair else 20000), pair=pair)
